@@ -18,7 +18,7 @@ from ..recorder import Recorder
 
 PROP = "C13"
 U = 0.25
-FN = {"adjust": "util.adjust_intervals", "merge": "util.merge_labeled_intervals",
+FN = {"noisy": "util.intervals_to_boundaries/boundaries_to_intervals", "adjust": "util.adjust_intervals", "merge": "util.merge_labeled_intervals",
       "interp": "util.interpolate_intervals", "samples": "util.intervals_to_samples",
       "bounds": "util.intervals_to_boundaries/boundaries_to_intervals", "events": "util.adjust_events"}
 
@@ -27,7 +27,7 @@ class OffLattice(Exception):
     pass
 
 
-FINE = 2.0 ** -24     # second lattice: boundaries a few 2^-24 s apart (near-coincident, still exact doubles)
+FINE = 2.0 ** -30     # second lattice: boundaries a few 2^-30 s (about 1e-9 s) apart - near-coincident, still exact doubles
 
 
 def lat(x, U=U):
@@ -98,7 +98,7 @@ def execute(me, kind, inp, unit=U, int_dtype=False):
 
 def pad(res, kind):
     """TLC records need every field it may touch"""
-    base = {"ivs": [], "labs": [], "xl": [], "yl": [], "times": [], "b": [], "back": [], "evs": [], "exc": ""}
+    base = {"ivs": [], "labs": [], "xl": [], "yl": [], "times": [], "b": [], "back": [], "evs": [], "exc": "", "nb": 0, "incr": True, "err9": 0}
     base.update(res)
     base.pop("msg", None)
     return base
@@ -107,15 +107,15 @@ def pad(res, kind):
 def fine_inputs(rng, n):
     """annotations whose boundaries nearly coincide (a few 2^-24 s apart): unit FINE"""
     out = []
-    Q = 2 ** 22        # 0.25 s in FINE units
+    Q = 2 ** 28        # 0.25 s in FINE units (values stay below 2^31: at most 7 x 0.25 s)
     for _ in range(n):
         k = rng.randint(2, 5)
-        base = sorted(rng.sample(range(0, 12), k + 1))
-        xb = [b * Q + rng.choice([0, 0, 1, 2]) for b in base]
+        base = sorted(rng.sample(range(0, 8), k + 1))
+        xb = [b * Q + rng.choice([0, 0, 1, 2, 5]) for b in base]
         xb[0] = base[0] * Q
         xb[-1] = base[-1] * Q
         # second annotation: same span, boundaries at the same places +- a few units
-        yb = sorted(set([xb[0]] + [b + rng.choice([-2, -1, 1, 2, 3]) for b in xb[1:-1] if rng.random() < 0.8] + [xb[-1]]))
+        yb = sorted(set([xb[0]] + [b + rng.choice([-4, -2, -1, 1, 2, 3, 9]) for b in xb[1:-1] if rng.random() < 0.8] + [xb[-1]]))
         xi = [[xb[i], xb[i + 1]] for i in range(len(xb) - 1)]
         yi = [[yb[i], yb[i + 1]] for i in range(len(yb) - 1)]
         xl = [rng.choice("abc") for _ in xi]
@@ -131,6 +131,29 @@ def fine_inputs(rng, n):
         pts = sorted(rng.choice(allb) + rng.choice([-1, 0, 0, 1]) for _ in range(4))
         out.append(("interp", {"ivs": xi, "labs": xl, "pts": [p for p in pts if p >= 0]}))
     return out
+
+
+def noisy_bounds(me, rng):
+    """a contiguous segmentation whose shared edges differ by float noise (end_i = start_i + duration_i): the documented
+    5-decimal rounding must make intervals_to_boundaries / boundaries_to_intervals mutually inverse all the same"""
+    n = rng.randint(2, 7)
+    d = [rng.choice([0.1, 0.2, 0.3, 0.7, 1.1, 0.25]) for _ in range(n)]
+    starts = [0.0]
+    for x in d[:-1]:
+        starts.append(starts[-1] + x)
+    grid = [round(v, 6) for v in starts]                      # starts taken from a grid, ends accumulated
+    iv = np.array([[grid[i], starts[i] + d[i]] for i in range(n)])
+    iv[:-1, 1] = [starts[i] + d[i] for i in range(n - 1)]
+    res = {"exc": "", "nb": 0, "incr": False, "err9": 0}
+    try:
+        b = me.util.intervals_to_boundaries(iv)
+        res["nb"] = int(len(b))
+        res["incr"] = bool(np.all(np.diff(b) > 0))
+        back = me.util.boundaries_to_intervals(b)
+        res["err9"] = int(min(2 * 10 ** 9, round(float(np.max(np.abs(back - iv))) * 1e9))) if back.shape == iv.shape else 2 * 10 ** 9
+    except Exception as ex:  # noqa
+        res["exc"] = type(ex).__name__
+    return {"n": n}, res, iv
 
 
 def random_inputs(rng, n):
@@ -230,7 +253,7 @@ def recorded_inner_calls(me, rng, n):
 
 def to_event(tid, kind, inp, res):
     full = {"ivs": [], "labs": [], "tmin": -1, "tmax": -1, "sl": "S", "el": "E", "xi": [], "xl": [], "yi": [],
-            "yl": [], "pts": [], "offset": 0, "size": 1, "evs": []}
+            "yl": [], "pts": [], "offset": 0, "size": 1, "evs": [], "n": 0}
     full.update(inp)
     return {"tid": tid, "kind": kind, "inp": full, "res": pad(res, kind)}
 
@@ -241,7 +264,7 @@ def run(tier, seed):
     ev = Evidence(PROP, tier, seed)
     rep = Reporter(PROP)
     thorough = tier == "thorough"
-    events, meta, units = [], {}, {}
+    events, meta, units, noisy = [], {}, {}, {}
     for kind in ("adjust", "merge", "interp", "samples", "bounds", "events"):
         cfg = "MC_C13_%s%s" % (kind, "_T" if thorough else "")
         res = tlc.run("MC_C13", cfg=cfg, timeout=3400, heap="8g")
@@ -269,6 +292,16 @@ def run(tier, seed):
         events.append(to_event(tid, kind, inp, execute(me, kind, inp, unit=FINE)))
         meta[tid] = "fine-lattice"
         units[tid] = FINE
+    for _ in range(600 if thorough else 120):
+        inp, res, iv = noisy_bounds(me, rng)
+        tid = len(events) + 1
+        e = to_event(tid, "noisy", {}, {"exc": res["exc"]})
+        e["inp"]["n"] = inp["n"]
+        e["res"].update(nb=res["nb"], incr=res["incr"], err9=res["err9"])
+        events.append(e)
+        meta[tid] = "float-noise-boundaries"
+        units[tid] = 1.0
+        noisy[tid] = iv.tolist()
     for kind, inp, res in recorded_inner_calls(me, rng, 1500 if thorough else 150):
         tid = len(events) + 1
         events.append(to_event(tid, kind, inp, res))
@@ -281,7 +314,7 @@ def run(tier, seed):
     for rj in rejects:
         e = byid[rj["tid"]]
         rep.violation(FN[e["kind"]], rj["class"] + "/" + rj["clause"],
-                      {"kind": e["kind"], "inp": e["inp"], "impl_result": e["res"], "source": meta[rj["tid"]],
+                      {"kind": e["kind"], "inp": e["inp"], "impl_result": e["res"], "source": meta[rj["tid"]], "intervals": noisy.get(rj["tid"]),
                        "unit_seconds": units.get(rj["tid"], U), "int_dtype": meta[rj["tid"]] == "random-int-dtype"})
     for e in events:
         i = e["inp"]
